@@ -25,6 +25,7 @@ var verifC08Corpus = []verifDoc{
 	{name: "turkish.txt", content: "1 ist 2 Ist 3 IST 4 İst 5 ıst 6 İST\n"},
 	{name: "dz.txt", content: "1 ǆel 2 ǅel 3 ǄEL\n"},
 	{name: "eszett.txt", content: "1 ßel 2 ẞEL 3 ssel\n"},
+	{name: "stroke.txt", content: "1 ⱥel 2 Ⱥel"}, // case pair of different byte length, the shorter form at the very end of the file
 	{name: "plain.txt", content: "nothing special here\n"},
 }
 
@@ -55,7 +56,7 @@ func verifC08Ranges(d *indexData, q query.Q) []verifC08Range {
 	return out
 }
 
-var verifC08Runes = []rune{'k', 'K', 0x212A, 's', 'S', 0x17F, 0x3C3, 0x3C2, 0x3A3, 'i', 'I', 0x130, 0x131, 0x1C6, 0x1C5, 0x1C4, 0xDF, 0x1E9E}
+var verifC08Runes = []rune{'k', 'K', 0x212A, 's', 'S', 0x17F, 0x3C3, 0x3C2, 0x3A3, 'i', 'I', 0x130, 0x131, 0x1C6, 0x1C5, 0x1C4, 0xDF, 0x1E9E, 0x23A, 0x2C65}
 var verifC08Contexts = [][2]rune{{'e', 'l'}, {'E', 'L'}, {'t', 'r'}, {'s', 't'}, {0x3B5, 0x3BB}, {0x395, 0x39B}}
 
 func H_C08_routes() {
@@ -82,7 +83,16 @@ func H_C08_routes() {
 	b := verifC08Ranges(d, re)
 	verifrt.Observe("literal", len(a))
 	verifrt.Observe("regexp", len(b))
-	label := fmt.Sprintf("the literal and the regexp form of a case-insensitive pattern return the same matches (pattern with U+%04X)", r)
+	// the label names the exact pattern and both answers, so that a listed known disagreement is one
+	// specific input with one specific outcome
+	show := func(rs []verifC08Range) string {
+		out := ""
+		for _, r := range rs {
+			out += fmt.Sprintf(" %s:%d-%d", r.file, r.start, r.end)
+		}
+		return "[" + out + " ]"
+	}
+	label := fmt.Sprintf("the literal and the regexp form of a case-insensitive pattern return the same matches (pattern U+%04X U+%04X U+%04X: literal %s, regexp %s)", pat[0], pat[1], pat[2], show(a), show(b))
 	same := len(a) == len(b)
 	if same {
 		for i := range a {
@@ -91,7 +101,7 @@ func H_C08_routes() {
 			}
 		}
 	}
-	verifrt.Debug("literal vs regexp", fmt.Sprintf("%q: %v vs %v", string(pat), a, b))
+	verifrt.Debug("literal vs regexp", fmt.Sprintf("%q: %s vs %s", string(pat), show(a), show(b)))
 	verifrt.Assert(same, label)
 	verifrt.Reach("returned")
 }
